@@ -282,7 +282,7 @@ pub fn mutation_bytes_cli(quick: bool) -> Vec<u8> {
     if quick {
         b"\"\\\n\xff".to_vec()
     } else {
-        mutation_bytes(true)
+        b"{}[]:,\"'\\ \n\r\t-#&*|>\x00\xc3\xff".to_vec()
     }
 }
 
